@@ -36,6 +36,7 @@ type Scenario struct {
 	Fmt        string
 	Src        string   // schema package directory
 	Args       []string // interface arguments
+	OnlyProps  []string // restrict the properties this scenario's obligations serve (known-finding witnesses)
 	// filled by the run
 	Dir      string // directory moq ran in
 	OutFile  string
@@ -70,7 +71,7 @@ func (s *Scenario) flagString() string {
 	return strings.Join(f, ",")
 }
 
-var defaultArgs = []string{"Schema", "Emb:EmbeddedMock", "Empty", "GSchema", "GOne"}
+var defaultArgs = []string{"Schema", "Emb:EmbeddedMock", "Empty", "GSchema", "GOne", "GLower"}
 
 func scenarios(tier string) []*Scenario {
 	var out []*Scenario
@@ -107,6 +108,8 @@ func scenarios(tier string) []*Scenario {
 	add(Scenario{Args: []string{"GSchema"}})
 	add(Scenario{Args: []string{"Emb:EmbeddedMock"}})
 	add(Scenario{Args: []string{"GSchema", "Schema"}, Stub: true})
+	// witnesses of known findings (see /verif/KNOWN_FINDINGS.jsonl)
+	add(Scenario{Src: "kfcomparable", Args: []string{"Keyed"}, OnlyProps: []string{"C09"}})
 	return out
 }
 
@@ -333,7 +336,30 @@ func findPkg(ld *Loaded, path string, wantTestVariant bool) *packages.Package {
 }
 
 func (s2 *Stage2) tob(sc *Scenario, name string, props []string, ok bool, detail string) {
+	props = sc.restrict(props)
 	s2.tObls = append(s2.tObls, &TypeOb{Name: fmt.Sprintf("gen[%s]/%s", sc.flagString()+";"+strings.Join(sc.Args, "+"), name), Props: props, OK: ok, Detail: detail, Scen: sc.Name})
+}
+
+func (sc *Scenario) restrict(props []string) []string {
+	if sc.OnlyProps == nil {
+		return props
+	}
+	var out []string
+	for _, p := range props {
+		if hasProp(sc.OnlyProps, p) {
+			out = append(out, p)
+		}
+	}
+	return out
+}
+
+func allStage2Props() []string {
+	var out []string
+	for p := range stage2Props {
+		out = append(out, p)
+	}
+	sort.Strings(out)
+	return out
 }
 
 func parseArg(a string) (string, string) {
@@ -351,7 +377,7 @@ func (s2 *Stage2) CheckAll() {
 }
 
 func (s2 *Stage2) checkScenario(sc *Scenario) {
-	s2.tob(sc, "moq-exit-0", []string{"C01", "C19"}, sc.ExitCode == 0, sc.Stderr)
+	s2.tob(sc, "moq-exit-0", allStage2Props(), sc.ExitCode == 0, sc.Stderr)
 	if sc.ExitCode != 0 {
 		return
 	}
@@ -363,7 +389,7 @@ func (s2 *Stage2) checkScenario(sc *Scenario) {
 		}
 	}
 	sort.Strings(terrs)
-	s2.tob(sc, "typecheck", []string{"C01", "C02", "C09", "C10", "C12"}, len(terrs) == 0, strings.Join(terrs, "\n"))
+	s2.tob(sc, "typecheck", allStage2Props(), len(terrs) == 0, strings.Join(terrs, "\n"))
 	s2.checkFileLevel(sc)
 	if len(terrs) != 0 {
 		return
@@ -686,7 +712,7 @@ type mockHooks struct {
 }
 
 func (h *mockHooks) ob(st *State, clause string, goal Term, note string) {
-	props := h.s2.clauseProps(h.kind, clause)
+	props := h.mi.sc.restrict(h.s2.clauseProps(h.kind, clause))
 	h.e.oblige(st, h.name+"/"+clause, props, goal, note)
 }
 
@@ -735,9 +761,7 @@ func (h *mockHooks) protectedOf(a *Addr) (string, bool) {
 func (h *mockHooks) OnLoad(e *Exec, st *State, a *Addr, v *SV, in ssa.Instruction) {
 	if m, ok := h.protectedOf(a); ok {
 		mode := st.held[".lock"+m]
-		if mode == "" {
-			h.ob(st, "perm-load", BoolLit(false), "read of calls."+m+" without holding lock"+m+" at "+e.ld.pos(in.Pos()))
-		}
+		h.ob(st, "perm-load", BoolLit(mode != ""), "read of calls."+m+" requires holding lock"+m+" ("+e.ld.pos(in.Pos())+")")
 		v.Prot = m
 		st.events = append(st.events, Event{Kind: "load", Addr: m, SVs: []SV{*v}, Instr: in})
 	}
@@ -745,9 +769,7 @@ func (h *mockHooks) OnLoad(e *Exec, st *State, a *Addr, v *SV, in ssa.Instructio
 
 func (h *mockHooks) OnStore(e *Exec, st *State, a *Addr, v SV, in ssa.Instruction) {
 	if m, ok := h.protectedOf(a); ok {
-		if st.held[".lock"+m] != "W" {
-			h.ob(st, "perm-store", BoolLit(false), "write of calls."+m+" without holding lock"+m+" exclusively at "+e.ld.pos(in.Pos()))
-		}
+		h.ob(st, "perm-store", BoolLit(st.held[".lock"+m] == "W"), "write of calls."+m+" requires holding lock"+m+" exclusively ("+e.ld.pos(in.Pos())+")")
 		st.events = append(st.events, Event{Kind: "store", Addr: m, SVs: []SV{v}, Instr: in})
 		return
 	}
@@ -788,9 +810,7 @@ func (h *mockHooks) OnCall(e *Exec, st *State, ci ssa.CallInstruction, callee st
 			h.ob(st, "lock-is-own-field", BoolLit(false), "lock operation on something that is not a lock field of the receiver")
 			return true
 		}
-		if len(st.held) > 0 {
-			h.ob(st, "no-lock-nesting", BoolLit(false), "acquires "+lk+" while holding "+fmt.Sprint(sortedKeys(st.held)))
-		}
+		h.ob(st, "no-lock-nesting", BoolLit(len(st.held) == 0), "acquires "+lk+" while holding "+fmt.Sprint(sortedKeys(st.held)))
 		mode := "W"
 		if strings.HasSuffix(callee, "RLock") {
 			mode = "R"
@@ -828,9 +848,7 @@ func (h *mockHooks) OnCall(e *Exec, st *State, ci ssa.CallInstruction, callee st
 		if strings.HasSuffix(callee, "RUnlock") {
 			want = "R"
 		}
-		if st.held[lk] != want {
-			h.ob(st, "unlock-matches-lock", BoolLit(false), fmt.Sprintf("%s on %s while held in mode %q", callee, lk, st.held[lk]))
-		}
+		h.ob(st, "unlock-matches-lock", BoolLit(st.held[lk] == want), fmt.Sprintf("%s on %s while held in mode %q", callee, lk, st.held[lk]))
 		m := strings.TrimPrefix(lk, ".lock")
 		h.sectionEffect(e, st, m)
 		delete(st.held, lk)
@@ -839,9 +857,7 @@ func (h *mockHooks) OnCall(e *Exec, st *State, ci ssa.CallInstruction, callee st
 		return true
 	case "builtin.append":
 		if args[0].Prot != "" {
-			if st.held[".lock"+args[0].Prot] != "W" {
-				h.ob(st, "perm-append", BoolLit(false), "append to the record list of "+args[0].Prot+" (may write its backing array in place) without holding lock"+args[0].Prot+" exclusively")
-			}
+			h.ob(st, "perm-append", BoolLit(st.held[".lock"+args[0].Prot] == "W"), "append to the record list of "+args[0].Prot+" (may write its backing array in place) requires holding lock"+args[0].Prot+" exclusively")
 		}
 		return false
 	}
@@ -972,9 +988,7 @@ func (h *mockHooks) sectionEffect(e *Exec, st *State, m string) {
 func (h *mockHooks) allocAtLock(st *State, m string) Term { return st.ghost["sect:"+m+":alloc"] }
 
 func (h *mockHooks) OnInvoke(e *Exec, st *State, ci ssa.CallInstruction, fn SV, args []SV, res SV) {
-	if len(st.held) > 0 {
-		h.ob(st, "no-lock-held-at-invoke", BoolLit(false), "user function called while holding "+fmt.Sprint(sortedKeys(st.held)))
-	}
+	h.ob(st, "no-lock-held-at-invoke", BoolLit(len(st.held) == 0), "user function called while holding "+fmt.Sprint(sortedKeys(st.held)))
 	ev := Event{Kind: "invoke", SVs: append([]SV{fn}, args...), Terms: res.L, Instr: ci, Pc: append([]Term(nil), st.pc...)}
 	if st.ghost["recorded"].S == "true" {
 		ev.Note = "recorded"
@@ -994,9 +1008,7 @@ func zeroTerms(t types.Type) []Term { return zeroSV(t).L }
 // exit obligations for one path
 func (h *mockHooks) atExit(e *Exec, st *State, results []SV, panicked bool, panicInstr *ssa.Panic) {
 	sc := h.mi.sc
-	if len(st.held) > 0 {
-		h.ob(st, "no-lock-held-at-exit", BoolLit(false), "returns or panics while holding "+fmt.Sprint(sortedKeys(st.held)))
-	}
+	h.ob(st, "no-lock-held-at-exit", BoolLit(len(st.held) == 0), "returns or panics while holding "+fmt.Sprint(sortedKeys(st.held)))
 	var invokes []Event
 	nLock := 0
 	nStore := 0
